@@ -697,6 +697,8 @@ func runC14(p *Program, r *Report) {
 	checkSubtractionNotSkipped(p, r, "R14l", "AddProof", 2)
 	r.Rule("R14m", "UNION-NOT-CONCATENATION: no list the proof combination returns is assembled by putting a list of one proof behind a list of the other (append(a, b...), AppendMany, copy, slices.Concat, directly or in a helper); the lists of the two proofs are joined by the de-duplicating merges")
 	checkUnionNotConcat(p, r, "R14m", "AddProof", 2)
+	r.Rule("R14n", "RESTRICTION-RECOMPUTES: the hashing core runs on every path to a success return of the proof restriction (the proof of a subset contains nodes computed from the targets that are dropped)")
+	checkRestrictionRecomputes(p, r, "R14n", "GetProofSubset", "calculateHashes")
 	r.Rule("R14j", "JOINT-PROOF-POSITIONS: the single-target proof-position helper is never called in a loop whose results are accumulated into one list (the proof of several targets is computed by the joint function)")
 	checkJointProofPositions(p, r, "R14j")
 }
